@@ -6,8 +6,9 @@
   per-rule injective name maps the engine's run on the renamed knowledge base is the
   image of its run on the original one.
   PROVED HERE
-    * `C11_engine` — for the ENGINE MODEL on the whole control language (calls, `!`, `,`, `;`, `not`, `time`) without other
-      built-in predicates and function terms: request by request, the answers against the renamed knowledge base are the
+    * `C11_engine` — for the ENGINE MODEL on the whole control language (calls, `!`, `,`, `;`, `not`, `time`) with the built-in
+      predicates that do not write names — `fail`, `nl`, `=` (unify) and the five comparisons (`Lemmas/NameBlindBip.lean`) —
+      and without function terms: request by request, the answers against the renamed knowledge base are the
       renamed answers against the original one, with the same output.  `C11_machine_with_cut` is the same for the reference
       machine with cut.
     * `C11_machine` — for the reference machine of `Spec/PureMachine.lean` (whose runs the engine model's requests are, C01) on
@@ -15,8 +16,9 @@
       `kb` with the variable names of EACH RULE rewritten by an injective map of its own (`KBRen`; the maps may differ from
       rule to rule, so rules may reuse each other's names or the query's), then every run of a query on `kb` is a run on
       `kb'` showing the same observations — answer or none, in the same order, with the same text written — the bindings of
-      the answers being renamed by a map that leaves the query's own variables alone.  Built-in predicates and function terms
-      are left to the differential stream: `print`, `join`, ... write the names of unbound variables.
+      the answers being renamed by a map that leaves the query's own variables alone.  The other built-in predicates and the
+      function terms are left to the differential stream: `print`, `print_list`, `join` write the names of unbound variables
+      (with them the statement is false as it stands), the list built-ins have not been taken through the renaming.
     * `unification_blind_to_names` — `unify` on renamed operands under the renamed substitution set gives the renamed
       result (for a renaming that may depend on the id and is injective for each id).
     * `rename_apart_commutes` — renaming a rule apart from the counter commutes with a renaming of its names: the ids
@@ -193,8 +195,8 @@ theorem C11_machine_with_cut (fo : FloatOps) {kb kb' : KB} (hren : KBRen kb kb')
 open Suiron.Blind Suiron.Spec in
 /-- C11 FOR THE ENGINE MODEL: the i-th request on the base node of a query against the renamed knowledge base returns the
     renamed answer (or none) of the i-th request against the original one, with the same text written so far — for every
-    knowledge base of the fragment (rule bodies: calls with atom functors, `!`, `,`, `;`, `not`, `time` in which no `!` is
-    written directly; no other built-in predicate, no function term), every query term with an atom functor, and whatever the
+    knowledge base of the fragment (rule bodies: calls with atom functors, `!`, `fail`, `nl`, `=`, the comparisons, `,`, `;`,
+    `not`, `time` in which no `!` is written directly; no other built-in predicate, no function term), every query term with an atom functor, and whatever the
     timer ticks of the two sessions.  (From `C11_machine_with_cut`, the refinement of C01 for both knowledge bases, and the
     determinism of the machine.) -/
 theorem C11_engine (fo : FloatOps) {kb kb' : KB} (hren : KBRen kb kb') (hok : kbOK kb)
@@ -258,8 +260,10 @@ example : ∃ σ, MRun fo0 kbA ⟨[.goals [.call (c2 "p" (.var 1 "$A") (.var 2 "
       exact PSteps.refl
     case rest => exact MRun.fin .refl .nil
 example : Blind.goodG 2 (.call (c2 "p" (.var 1 "$A") (.var 2 "$B"))) = true := by decide
-/-- a rule with a cut lies in the fragment too: `first($X) :- q($X, $Y), !.` -/
+/-- rules with a cut, a unification and a comparison lie in the fragment too: `first($X) :- q($X, $Y), !, $Y = b, $X < z.` -/
 example : Blind.ruleOK ⟨.cplx (.cons (.atom "first") (.cons (.var 0 "$X") .nil)),
-    .and (.cons (.call (c2 "q" (.var 0 "$X") (.var 0 "$Y"))) (.cons (.bip "!" none) .nil))⟩ := ⟨⟨by decide, by decide⟩, by decide⟩
+    .and (.cons (.call (c2 "q" (.var 0 "$X") (.var 0 "$Y"))) (.cons (.bip "!" none)
+      (.cons (.bip "unify" (some (.cons (.var 0 "$Y") (.cons (.atom "b") .nil))))
+      (.cons (.bip "less_than" (some (.cons (.var 0 "$X") (.cons (.atom "z") .nil)))) .nil))))⟩ := ⟨⟨by decide, by decide⟩, by decide⟩
 
 end Suiron.C11
